@@ -193,6 +193,9 @@ def check_property(pid, tier, seed, jobs=None):
                     payload = {"property": pid, "obligation": oid, "function": c.func, "file": c.file, "solver": {k: f.get(k) for k in ("backend", "goal", "path_outcome", "escaping_exception", "violations", "reason")},
                                "inputs": f.get("counterexample"), "native_replay": rep,
                                "how_to_run": f"./check {pid} --replay <this file>"}
+                    if rep["status"] == "failed" and not _same_clause(label, rep["failures"]):
+                        rep = dict(rep, status="passed-for-this-clause", note="the native run failed a different clause than the refuted obligation; not counted as a reproduction")
+                        payload["native_replay"] = rep
                     if rep["status"] == "failed":
                         payload["kind"] = "failing-input"
                         path = write_replay(pid, oid, payload)
@@ -314,6 +317,16 @@ def finish(run, mod, wall):
     print(f"[{pid}] tier={run.tier} obligations={n_ob} discharged={n_dis} undecided={len(run.undecided)} "
           f"violations={len(real)} known={len(seen_known)} bounded_evals={cov.get('evaluations', 0)} wall={wall:.1f}s")
     return 1 if real else 0, run
+
+
+def _same_clause(label, failures):
+    """Does a native failure correspond to the refuted obligation? (a replay only counts for its own clause)"""
+    names = [f[0] for f in failures]
+    if label.startswith("pre@call:") or label in ("termination",):
+        return bool(names)
+    if label.startswith("check:") or label.startswith("frame:"):
+        return False
+    return label in names or any(n.startswith(label) for n in names) or "termination" in names
 
 
 def _short(d):
